@@ -14,16 +14,22 @@
 (*    nsig]   signature of the notary on the response: "good" | "bad"      *)
 (*            (known key ID, wrong key) | "unknown" (key ID the client     *)
 (*            does not know) | "none"                                      *)
+(*    dup]    a top-level member of the JSON object written a second time  *)
+(*            by whoever relays the response: [m, pos, c] (see "A member   *)
+(*            written twice" below); NoDup for a response as it was signed *)
 (* Symbolic cryptography as in KeyRing.tla.                                *)
 (*                                                                         *)
 (* A response is accepted for server S at instant `now` iff it names S,    *)
 (* its valid_until_ts lies in the future, it has at least one ed25519 key  *)
 (* and every ed25519 key is well formed and has signed the response; via   *)
 (* a notary additionally the notary must have signed it with a known key.  *)
+(* All of this is said of ONE reading of the response: the one its         *)
+(* signatures cover (Reading below).                                       *)
 (***************************************************************************)
 EXTENDS Integers, Sequences, FiniteSets
 
 NoTS == -9999
+NoDup == [m |-> "none", pos |-> "before", c |-> "-"]
 
 EdKeys(r) == {k \in r.vkeys : k.alg = "ed25519"}
 KeyValid(k) == k.size = "ok"
@@ -35,8 +41,9 @@ Checks(expected, now, r) ==
         future == r.vu > now
         hased == EdKeys(r) # {}
         edok == \A k \in EdKeys(r) : KeyMatch(k)
+        once == r.dup.m = "none"     \* a reading (see Reading): no member is left written twice
     IN [name |-> name, future |-> future, hased |-> hased, edok |-> edok,
-        all |-> name /\ future /\ hased /\ edok,
+        all |-> name /\ future /\ hased /\ edok /\ once,
         ed |-> {[kid |-> k.kid, valid |-> KeyValid(k), match |-> KeyMatch(k)] : k \in EdKeys(r)}]
 
 Accepts(expected, now, r) == Checks(expected, now, r).all
@@ -88,6 +95,110 @@ MergeAll(rs) == IF rs = <<>> THEN <<>>
                 ELSE Merge(MergeAll(SubSeq(rs, 1, Len(rs) - 1)), Named(rs[Len(rs)].name, KeysOf(rs[Len(rs)])))
 Perspective(now, p) ==
     IF p.kind = "list" /\ \A i \in DOMAIN p.rs : ViaNotaryOK(now, p.rs[i]) THEN MergeAll(p.rs) ELSE <<>>
+
+\* ----------------------------------------------------------------- a member written twice
+\* A key response travels as a JSON object.  Whoever relays it (a notary, a perspective server, anything
+\* between them and us) can write one of its top-level members a second time without touching a byte of
+\* what was signed.  Canonical JSON - what the origin's and the notary's signatures are made and verified
+\* over - reads the LAST copy of a member.  So a response has exactly one reading its signatures cover:
+\* every member as its last copy says.  The property ("accepted only if signed by the server it names, and
+\* via a notary by the notary") speaks of that reading: nothing that stands only in an earlier copy may
+\* reach the caller, whatever kind of value the member holds.
+\*
+\* dup = [m    which member: "verify_keys" | "old_verify_keys" | "server_name" | "valid_until_ts" |
+\*             "signatures"   ("none": nothing is written twice)
+\*        pos  the smuggled copy stands "before" or "after" the genuine one
+\*        c    what the smuggled copy holds
+\*             verify_keys      "evil"      an ID of its own (kx) with the relay's key X; the relay's own
+\*                                          signature under that ID is put into the last signatures member
+\*                              "evilnosig" the same without that signature
+\*                              "sameid"    the ID of the genuine current key k1 with the relay's key X (what
+\*                                          stands under signatures[name][k1] is not a signature by X)
+\*                              "empty"     {}
+\*             old_verify_keys  "evil"      kx -> X with an expired_ts far in the future
+\*                              "sameid"    the same under the ID k0 | "empty" {}
+\*             server_name      "other"     the other server
+\*             valid_until_ts   "future" | "past"
+\*             signatures       "attacker"  an object that holds only a signature of the relay (ID kx)]
+\* name / vu / vkeys / old describe the response as the origin signed it; sig / nsig say what the
+\* signatures are worth over THAT content.
+FarTS == 9000
+XKey(kid, sig) == [kid |-> kid, alg |-> "ed25519", key |-> "X", size |-> "ok", sig |-> sig]
+SmugV(r) == CASE r.dup.c = "evil"      -> {XKey("kx", "good")}
+              [] r.dup.c = "evilnosig" -> {XKey("kx", "none")}
+              [] r.dup.c = "sameid"    -> {XKey("k1", "bad")}
+              [] OTHER                 -> {}
+SmugO(r) == CASE r.dup.c = "evil"   -> {[kid |-> "kx", key |-> "X", exp |-> FarTS]}
+              [] r.dup.c = "sameid" -> {[kid |-> "k0", key |-> "X", exp |-> FarTS]}
+              [] OTHER              -> {}
+SmugName(r) == IF r.name = "s1" THEN "s2" ELSE "s1"
+SmugVU(r) == IF r.dup.c = "future" THEN 48 ELSE -24
+
+\* the response with the smuggled copy in the place of the genuine one
+Replaced(r) ==
+    CASE r.dup.m = "verify_keys"     -> [r EXCEPT !.vkeys = SmugV(r)]
+      [] r.dup.m = "old_verify_keys" -> [r EXCEPT !.old = SmugO(r)]
+      [] r.dup.m = "server_name"     -> [r EXCEPT !.name = SmugName(r)]
+      [] r.dup.m = "valid_until_ts"  -> [r EXCEPT !.vu = SmugVU(r)]
+      [] OTHER                       -> r
+\* what the signatures are made over
+Content(r) == [name |-> r.name, vu |-> r.vu, old |-> r.old,
+               vkeys |-> {[kid |-> k.kid, key |-> k.key, size |-> k.size] : k \in r.vkeys}]
+\* a signature made over other content is a bad signature
+Stale(s) == IF s = "good" THEN "bad" ELSE s
+
+\* THE reading of a response: every member as its last copy says, the signatures valued over it.  The
+\* relay's key signs whatever the relay made of the response; everybody else signed the genuine content.
+Reading(r) ==
+    IF r.dup.m = "none" THEN r
+    ELSE IF r.dup.pos = "before" THEN [r EXCEPT !.dup = NoDup]
+    ELSE IF r.dup.m = "signatures"
+         THEN [r EXCEPT !.vkeys = {[k EXCEPT !.sig = "none"] : k \in r.vkeys}, !.nsig = "none", !.dup = NoDup]
+    ELSE LET q == Replaced(r) IN
+         IF Content(q) = Content(r) THEN [r EXCEPT !.dup = NoDup]
+         ELSE [q EXCEPT !.vkeys = {[k EXCEPT !.sig = IF k.key = "X" THEN k.sig ELSE Stale(k.sig)] : k \in q.vkeys},
+                        !.nsig = Stale(q.nsig), !.dup = NoDup]
+
+\* NOT a reading (kept to show that the scenarios tell it apart, see DupTeeth in the _gen module): a decoder
+\* that unites the copies of an object-valued member, per key ID the later copy.  The keys of the earlier
+\* copy then ride on signatures that do not cover them.
+Override(A, B) == B \cup {a \in A : a.kid \notin {b.kid : b \in B}}
+Merged(r) ==
+    LET c == Reading(r)
+        gv == IF r.dup.pos = "after" /\ Content(Replaced(r)) # Content(r)
+              THEN {[k EXCEPT !.sig = Stale(k.sig)] : k \in r.vkeys} ELSE r.vkeys
+    IN  CASE r.dup.m = "verify_keys" ->
+                [c EXCEPT !.vkeys = IF r.dup.pos = "before" THEN Override(SmugV(r), gv) ELSE Override(gv, SmugV(r))]
+          [] r.dup.m = "old_verify_keys" ->
+                [c EXCEPT !.old = IF r.dup.pos = "before" THEN Override(SmugO(r), r.old) ELSE Override(r.old, SmugO(r))]
+          [] OTHER -> c
+
+\* What an implementation may do with a response that writes a member twice (the property leaves it open):
+\*   "lastwins"  read it as its signatures do
+\*   "refuse"    let it fail the checks (it stays in the answer it came in: a notary's answer is spoilt)
+\*   "drop"      fail to decode it: a single response is an error of the client; an entry of a notary's list
+\*               is left out (fclient.LookupServerKeys leaves out the entries it cannot decode)
+Policies == {"lastwins", "refuse", "drop"}
+View(pol, r) == IF r.dup.m = "none" THEN r
+                ELSE IF pol = "lastwins" THEN Reading(r)
+                ELSE [Reading(r) EXCEPT !.dup = r.dup]        \* still written twice: fails Checks(..).all
+ViewD(pol, d) == IF d.kind # "resp" THEN d
+                 ELSE IF pol = "drop" /\ d.r.dup.m # "none" THEN [d EXCEPT !.kind = "error"]
+                 ELSE [d EXCEPT !.r = View(pol, d.r)]
+ViewL(pol, n) == IF n.kind # "list" THEN n
+                 ELSE LET kept == IF pol = "drop" THEN SelectSeq(n.rs, LAMBDA r : r.dup.m = "none") ELSE n.rs
+                      IN  [n EXCEPT !.rs = [i \in DOMAIN kept |-> View(pol, kept[i])]]
+
+\* the property: a key (with its validity) reaches the caller only as the reading of some response says,
+\* and only if the response is acceptable in that reading (for `expected`, or via a notary for the server
+\* it names and with the notary's signature)
+Yield(expected, now, r, viaNotary) ==
+    LET c == Reading(r)
+        ok == IF viaNotary THEN ViaNotaryOK(now, c) ELSE Accepts(expected, now, c)
+    IN  IF ok THEN Named(c.name, KeysOf(c)) ELSE <<>>
+OnlyWhatIsSigned(tab, expected, now, resps, viaNotary) ==
+    \A kn \in DOMAIN tab : \E r \in resps :
+        LET y == Yield(expected, now, r, viaNotary) IN kn \in DOMAIN y /\ y[kn] = tab[kn]
 
 \* ----- consequences that must hold of the oracle (checked by the _gen module over its scenarios)
 \* a key reaches the caller only out of a response that names the right server, is signed by every
